@@ -182,6 +182,12 @@ def hash_length_rule(rep, u):
             n += 1
             rep.functions.add(fn.name)
             ln_ = c["args"][2]
+            l0 = strip_casts(ln_)
+            if l0.get("k") == "ref" and l0.get("dk") == "local":
+                # a local that holds the length: look at its (single) definition
+                ds_ = [x["y"] for _p, _r, x, _ps in fn.nodes() if x.get("k") == "bin" and x["op"] == "=" and core.is_ref(strip_casts(x["x"]), id=l0.get("id"))]
+                if len(ds_) == 1:
+                    ln_ = ds_[0]
             names = {r["n"]: r for r in core.refs(ln_)} if ln_.get("k") != "lazy" else {r["n"]: r for r in core.refs(ln_.get("lz") or ln_)}
             inst = "hash-length:%s" % c["fn"]
             desc = "%s imports the hash truncated to the curve size: MIN(hash_size, <curve bytes>)" % fn.name
@@ -201,6 +207,118 @@ def hash_length_rule(rep, u):
                 rep.violated("R-SIB", fn, inst, desc, "the hash is cut to MIN(hash_size, %s) and '%s' is %s, not the curve size: a hash longer than that "
                              "is truncated differently from what the signer and the bignum-level verifier use" % (
                                  o["n"], o["n"], "a parameter of the call" if o.get("dk") == "parm" else "not derived from the curve"), c.get("ln"))
+    return n
+
+
+def hash_bits_rule(rep, u):
+    """X9.62 7.3 / SEC 1 4.1.3 / FIPS 186-4 6.4: e is the leftmost bitlen(n) bits of the hash - n the ORDER.  Wherever the
+    caller's hash bytes are imported, the byte bound comes from bn_calc_bits(&curve->n) (the order can be one bit longer than
+    the field: secp160*, secp224k1; or not a whole number of bytes: secp521r1), the excess low bits are shifted out, and
+    the little-endian flavour takes the LAST bytes (its most significant ones)."""
+    from rules.core import walk, strip_casts
+    n = 0
+    for fn in u.function_list:
+        if fn.relfile() != ECDSA_H or not fn.has_cfg:
+            continue
+        pn = {p["n"] for p in fn.params}
+        if not {"hash", "hash_size"} <= pn:
+            continue
+        for pos, root, c, ps in fn.calls({"bn_import_be_bin", "bn_import_le_bin"}):
+            src = core.base_ref(c["args"][1])
+            if src is None or src["n"] != "hash":
+                continue
+            n += 1
+            rep.functions.add(fn.name)
+            le = c["fn"] == "bn_import_le_bin"
+            # every local the length depends on, transitively
+            seen, work, from_order = set(), [c["args"][2]], False
+            while work:
+                e = work.pop()
+                for y, _ in walk(e.get("lz") if e.get("k") == "lazy" and e.get("lz") is not None else e):
+                    if y.get("k") == "call" and y.get("fn") == "bn_calc_bits" and any(z.get("k") == "mem" and z["f"] == "n" for z, _ in walk(y["args"][0])):
+                        from_order = True
+                    if y.get("k") == "ref" and y.get("dk") == "local" and y["n"] not in seen:
+                        seen.add(y["n"])
+                        work += [x["y"] for _p, _r, x, _ps in fn.nodes() if x.get("k") == "bin" and x["op"] == "=" and core.is_ref(strip_casts(x["x"]), name=y["n"])]
+            dst = core.base_ref(c["args"][0])
+            shifted = any(core.base_ref(c2["args"][0]) is not None and dst is not None and core.base_ref(c2["args"][0])["n"] == dst["n"] and
+                          p2[0] in fn.reach_from([pos[0]]) for p2, r2, c2, _ in fn.calls({"bn_r_shift"}))
+            tail = (not le) or any(y.get("k") == "bin" and y["op"] == "-" and any(core.is_ref(z, name="hash_size") for z, _ in walk(y)) for y, _ in walk(c["args"][1]))
+            desc = "%s: e is the leftmost bitlen(n) bits of the hash (n = order of the base point)" % fn.name
+            bad = []
+            if not from_order:
+                bad.append("the byte bound is not derived from bn_calc_bits(&curve->n) (the field's byte length is one bit short for secp160r1/secp224k1: "
+                           "SHA-256 signatures are rejected by and do not verify under a conforming implementation)")
+            if not shifted:
+                bad.append("the bits beyond bitlen(n) are not shifted out (secp521r1 with a 66-byte hash)")
+            if not tail:
+                bad.append("the little-endian flavour imports the first (least significant) bytes")
+            (rep.violated if bad else rep.proved)("R-SPEC", fn, "hash-leftmost-bits:%s" % c["fn"], desc, "; ".join(bad) if bad else
+                                                  "bound from the order, excess bits shifted%s" % (", most significant bytes taken" if le else ""), c.get("ln"))
+    return n
+
+
+def _order_derived(fn, e, depth=0):
+    """does the size expression depend on bitlen(curve->n)?  (locals are followed to their definitions)"""
+    from rules.core import walk, strip_casts
+    e = e.get("lz") if e.get("k") == "lazy" and e.get("lz") is not None else e
+    for y, _ in walk(e):
+        y = y.get("lz") if y.get("k") == "lazy" and y.get("lz") is not None else y
+        if y.get("k") == "call" and y.get("fn") == "bn_calc_bits" and any(z.get("k") == "mem" and z["f"] == "n" for z, _ in walk(y["args"][0])):
+            return True
+        if y.get("k") == "ref" and y.get("dk") == "local" and depth < 3:
+            for _p, _r, x, _ps in fn.nodes():
+                if x.get("k") == "bin" and x["op"] == "=" and core.is_ref(strip_casts(x["x"]), name=y["n"]) and _order_derived(fn, x["y"], depth + 1):
+                    return True
+    return False
+
+
+def order_bytes_rule(rep, u, curves, what="sign"):
+    """r, s and private keys are numbers below the ORDER n.  The byte-level functions limit (and produce) them with a byte
+    count; when that count is the FIELD's, (m + 7) / 8, it is the right one only while bytelen(n) <= bytelen(p) - decided
+    from the built-in curve table.  what='sign': the limit on sign_size and the size r, s are exported with;
+    what='key': the limit on priv_key_size."""
+    from rules.core import walk, strip_casts
+    n = 0
+    wide = [(nm, nb, m) for nm, nb, m in curves if (nb + 7) // 8 > (m + 7) // 8]
+    pname = "sign_size" if what == "sign" else "priv_key_size"
+    for fn in u.function_list:
+        if fn.relfile() != ECDSA_H or not fn.has_cfg or not fn.name.endswith(("_be", "_le")):
+            continue
+        pn = {p["n"] for p in fn.params}
+        if pname not in pn:
+            continue
+        sizes = []
+        for bid in fn.reachable_blocks():
+            cnd = fn.blocks[bid].cond
+            if cnd is None:
+                continue
+            for y, _ in walk(cnd):
+                if y.get("k") == "bin" and y["op"] in ("<", ">", "<=", ">="):
+                    a, b = strip_casts(y["x"]), strip_casts(y["y"])
+                    for v, o in ((a, b), (b, a)):
+                        if core.is_ref(v, name=pname) and not core.is_ref(o, name="rnd_size"):
+                            sizes.append(o)
+        if what == "sign":
+            for pos, root, c, ps in fn.calls({"bn_export_be_bin", "bn_export_le_bin"}):
+                dst = core.base_ref(c["args"][2]) if len(c["args"]) > 3 else None
+                if dst is not None and dst["n"] in ("sign_r", "sign_s"):
+                    sizes.append(c["args"][3])
+        if not sizes:
+            continue
+        n += 1
+        rep.functions.add(fn.name)
+        inst = "order-fits-size-limit" if what == "sign" else "order-fits-key-size-limit"
+        desc = "%s: every %s below the order fits the size this function accepts / produces, on every built-in curve" % (
+            fn.name, "r, s" if what == "sign" else "private key")
+        field_only = [key(x)[:40] for x in sizes if not _order_derived(fn, x)]
+        if field_only and wide:
+            rep.violated("R-SPEC", fn, inst, desc, "the size %s comes from the field, (m + 7) / 8, but the order is a byte longer on %s: %s" % (
+                field_only[0], ", ".join("%s (%d > %d bits)" % w for w in wide[:5]),
+                "a valid signature with s in [2^(8*bytes), n - 1] is refused with EINVAL (or cannot be exported)" if what == "sign" else
+                "the private keys in [2^m, n - 1] (d = n - 1) are refused with EINVAL although the bn_t level accepts them"))
+        else:
+            rep.proved("R-SPEC", fn, inst, desc, "sizes derived from the order" if not field_only else "bytelen(n) <= bytelen(p) for all %d curves" % len(curves))
     return n
 
 
@@ -373,7 +491,8 @@ def run(rep, tier):
     rep.floor("R-ERR call sites in ecdsa.h", n_err, 190)
     rep.floor("switch(curve->algo) sites", n_sw, 3)
     rep.floor("aliased-argument call shapes", alias_rule(rep, us["ecdsa:default"]), 3)
-    rep.floor("hash import sites", hash_length_rule(rep, us["ecdsa:default"]), 6)
+    rep.floor("hash import sites", hash_length_rule(rep, us["ecdsa:default"]), 1)
+    rep.floor("hash-to-number conversions", hash_bits_rule(rep, us["ecdsa:default"]), 2)
     reduce_rule(rep, us["ecdsa:default"])
     rep.floor("hash reductions", hash_reduction_rule(rep, us["ecdsa:default"]), 3)
     rep.floor("signed-to-digit conversions", sum(sign_rule(rep, u_) for u_ in us.values()) // len(us), 4)
@@ -384,6 +503,8 @@ def run(rep, tier):
     c02.curve_table(rep, us["ecdsa:default"])
     ncap = sum(c02.comb_capacity(rep, u_, list(c02.CURVES)) for u_ in us.values())
     rep.floor("comb multipliers", ncap, 1)
+    rep.floor("signature-size functions", order_bytes_rule(rep, us["ecdsa:default"], list(c02.CURVES)), 4)
+    rep.floor("private-key-size functions", order_bytes_rule(rep, us["ecdsa:default"], list(c02.CURVES), what="key"), 2)
     from props import c09
     c09.byte_api(rep, us, "C03")
     return driver.finish(
